@@ -164,7 +164,7 @@ func genRuntime(r *simcore.Rand, e *progEnv) []byte {
 		a.push(uint64(r.Range(1, 4))).op(opNUMBER, opSUB, opBLOCKHASH).acc()
 	}
 	for i := 0; i < n; i++ {
-		switch r.Pick(14, 14, 6, 5, 12, 7, 5, 6, 3, 3, 3, 2, 4, 3) {
+		switch r.Pick(14, 14, 6, 5, 12, 7, 5, 6, 3, 3, 3, 2, 4, 3, 2) {
 		case 0: // SLOAD into accumulator
 			a.push(slot()).op(opSLOAD).acc()
 		case 1: // SSTORE of a value derived from the accumulator / calldata
@@ -295,6 +295,12 @@ func genRuntime(r *simcore.Rand, e *progEnv) []byte {
 			if e.system {
 				emitSystemCall(a, r)
 			}
+		case 14: // gas-heavy loop: KECCAK over a scratch word, optionally an SSTORE per iteration
+			n := uint64(r.Range(50, 2000))
+			if r.Bool(0.25) {
+				n = uint64(r.Range(2000, 40000))
+			}
+			emitBurnLoop(a, n, r.Bool(0.3), slot())
 		case 13: // context values
 			k := r.Intn(5)
 			if e.blockhash && r.Bool(0.5) {
@@ -356,7 +362,11 @@ func emitSystemCall(a *asm, r *simcore.Rand) {
 // emitHeavy: stack and memory heavy snippets (C28): deep stacks, sparse big memory,
 // reads of memory the program never wrote, MCOPY/RETURNDATACOPY, precompile calls, jump tables.
 func emitHeavy(a *asm, r *simcore.Rand, e *progEnv) {
-	switch r.Pick(4, 4, 4, 3, 4, 3, 3) {
+	switch r.Pick(4, 4, 4, 3, 4, 3, 3, 3, 4) {
+	case 7: // fill a large region above 16 KiB with non-zero data
+		emitBigFlood(a, r, e)
+	case 8: // read / hash / copy / log / pass on memory above 16 KiB that this frame (usually) never wrote
+		emitBigRead(a, r, e)
 	case 0: // push many values, fold some, pop the rest
 		n := r.Range(20, 900)
 		for i := 0; i < n; i++ {
@@ -476,5 +486,77 @@ func fixedPrecompileInput(pre byte, k int) []byte {
 	default: // variants share a 32 byte prefix and differ in the tail
 		base := crypto.Keccak256([]byte("same input for sha256, ripemd160 and identity"))
 		return append(append([]byte{}, base...), seed[:k*7]...)
+	}
+}
+
+// emitBurnLoop: n iterations of KECCAK256 over mem[96:128) (the accumulator in mem[0:32) is left alone).
+func emitBurnLoop(a *asm, n uint64, sstore bool, slot uint64) {
+	loop := a.newLabel()
+	a.push(n)
+	a.mark(loop)
+	a.op(opDUP1).push(96).op(opMSTORE).push(32).push(96).op(opKECCAK, opPOP)
+	if sstore {
+		a.op(opDUP1).push(slot).op(opSSTORE)
+	}
+	a.push(1).op(opSWAP1, opSUB, opDUP1).pushLabel(loop).op(opJUMPI)
+	a.op(opPOP)
+}
+
+// Large-memory region shared by writers and readers: buffers above 16 KiB take a different path
+// through the memory pool than small ones.
+const bigBase = 16384
+
+func nonZeroWord(r *simcore.Rand) []byte {
+	w := r.Bytes(32)
+	for i := range w {
+		w[i] |= 1
+	}
+	return w
+}
+
+// emitBigFlood fills [base, base + 32<<k) with a non-zero pattern (one MSTORE, then doubling MCOPYs).
+func emitBigFlood(a *asm, r *simcore.Rand, e *progEnv) {
+	base := uint64(bigBase + 32*r.Intn(64))
+	a.pushBytes(nonZeroWord(r)).push(base).op(opMSTORE)
+	k := r.Range(4, 13) // 512 B .. 256 KiB
+	if !e.mcopy {
+		for i := 1; i <= k; i++ {
+			a.pushBytes(nonZeroWord(r)).push(base + uint64(32)<<uint(i)).op(opMSTORE)
+		}
+		return
+	}
+	l := uint64(32)
+	for i := 0; i < k; i++ {
+		a.push(l).push(base).push(base + l).op(opMCOPY)
+		l *= 2
+	}
+}
+
+func bigOffset(r *simcore.Rand) uint64 {
+	return bigBase + uint64(r.Intn(1<<uint(r.Range(9, 17))))
+}
+
+// emitBigRead consumes memory above 16 KiB through one of several instructions and folds what
+// it saw into the accumulator (or into a log / a call input).
+func emitBigRead(a *asm, r *simcore.Rand, e *progEnv) {
+	off := bigOffset(r)
+	n := uint64(32 * r.Range(1, 4))
+	switch r.Pick(3, 3, 2, 2, 2) {
+	case 0:
+		a.push(off).op(opMLOAD).acc()
+	case 1:
+		a.push(n).push(off).op(opKECCAK).acc()
+	case 2:
+		if e.mcopy {
+			a.push(32).push(off).push(32).op(opMCOPY)
+			a.push(32).op(opMLOAD).acc()
+		} else {
+			a.push(off).op(opMLOAD).acc()
+		}
+	case 3:
+		a.push(n).push(off).op(opLOG0)
+	default: // identity precompile gets the region as input, its output lands in mem[64:96)
+		emitCall(a, opSTATICCALL, 0, common.BytesToAddress([]byte{4}), 0, off, n)
+		a.push(64).op(opMLOAD).acc()
 	}
 }
